@@ -10,7 +10,8 @@ for i in range(1,21):
     src=open(f"lean/Qfx/Props/{pid}.lean").read()
     src=re.sub(r'/-.*?-/','',src,flags=re.S)
     thms=re.findall(r'^theorem\s+(\S+)',src,flags=re.M)
-    gen=re.findall(r'^theorem\s+('+pid+r'_gen_\S+)',open("lean/Qfx/Props/GenTies.lean").read(),flags=re.M)
+    tf=f"lean/Qfx/Props/Ties/{pid}.lean"
+    gen=re.findall(r'^theorem\s+('+pid+r'_gen_\S+)',open(tf).read(),flags=re.M) if os.path.exists(tf) else []
     fulls=re.findall(r'^def\s+(\S+_full)\b',src,flags=re.M)
     main=[t for t in thms if t.startswith(pid+"_")]
     ev={}
